@@ -53,7 +53,7 @@ func runC09(e *Env) {
 	// (which hands its bytes whole to the Parser: C01/C18 delegation), Scan — it takes a time.Time and nothing else;
 	// a text-taking function added beside them delegates unchanged or is undecided
 	ruleScanPath(e, "C09.paths")
-	ruleLateEntriesDelegate(e, "C09.paths", "date")
+	ruleLateEntriesDelegate(e, "C09.paths", "date", "Date")
 	e.S.Floor("C09.paths", 2)
 }
 
